@@ -825,6 +825,13 @@ func (p *ProjectRunner) UnSubscribeLogger(name string, observer pclog.LogObserve
 
 func (p *ProjectRunner) ScaleProcess(name string, scale int) error {
 	verifYield("scale.enter", name)
+	// requests that create or remove process instances are served one at a time
+	p.startMutex.Lock()
+	defer p.startMutex.Unlock()
+	return p.scaleProcess(name, scale)
+}
+
+func (p *ProjectRunner) scaleProcess(name string, scale int) error {
 	if scale < 1 {
 		err := fmt.Errorf("cannot scale process %s to a negative or zero value %d", name, scale)
 		log.Err(err).Msg("scale failed")
@@ -1147,6 +1154,12 @@ func NewProjectRunner(opts *ProjectOpts) (*ProjectRunner, error) {
 
 func (p *ProjectRunner) UpdateProject(project *types.Project) (map[string]string, error) {
 	verifYield("update.enter", "")
+	p.startMutex.Lock()
+	defer p.startMutex.Unlock()
+	return p.updateProject(project)
+}
+
+func (p *ProjectRunner) updateProject(project *types.Project) (map[string]string, error) {
 	newProcs := make(map[string]types.ProcessConfig)
 	delProcs := make(map[string]types.ProcessConfig)
 	updatedProcs := make(map[string]types.ProcessConfig)
@@ -1191,7 +1204,7 @@ func (p *ProjectRunner) UpdateProject(project *types.Project) (map[string]string
 	}
 	//Update processes
 	for name, proc := range updatedProcs {
-		err := p.UpdateProcess(&proc)
+		err := p.updateProcess(&proc)
 		if err != nil {
 			log.Err(err).Msgf("Failed to update process %s", name)
 			errs = append(errs, err)
@@ -1224,6 +1237,12 @@ func (p *ProjectRunner) ReloadProject() (map[string]string, error) {
 	return status, nil
 }
 func (p *ProjectRunner) UpdateProcess(updated *types.ProcessConfig) error {
+	p.startMutex.Lock()
+	defer p.startMutex.Unlock()
+	return p.updateProcess(updated)
+}
+
+func (p *ProjectRunner) updateProcess(updated *types.ProcessConfig) error {
 	isScaleChanged := false
 	validateProbes(updated.LivenessProbe)
 	validateProbes(updated.ReadinessProbe)
@@ -1252,7 +1271,7 @@ func (p *ProjectRunner) UpdateProcess(updated *types.ProcessConfig) error {
 	p.addProcessAndRun(*updated)
 
 	if isScaleChanged {
-		err = p.ScaleProcess(updated.ReplicaName, updated.Replicas)
+		err = p.scaleProcess(updated.ReplicaName, updated.Replicas)
 		if err != nil {
 			log.Err(err).Msgf("Failed to scale process %s", updated.Name)
 			return err
